@@ -89,7 +89,7 @@ MIN_COUNTERS = {
         "agreement_verdicts_compared": 98000, "read_only_queries": 185000, "namespace_checks": 1600,
         "illegal_ops_checked": 750, "shipped_files_loaded": 25, "shipped_verdicts_checked": 500, "op:copy": 550,
         "op:pickle": 550, "op:deepcopy": 250, "op:file": 80, "op:schema": 250, "op:update": 1300, "op:rename": 850,
-        "op:del": 900, "op:restrict": 750, "op:ns": 500, "op:clear": 280, "directed_cases": 19,
+        "op:del": 900, "op:restrict": 750, "op:ns": 500, "op:clear": 280, "directed_cases": 21,
     },
     "thorough": {
         "histories": 8142, "state_comparisons": 614285, "contract_invariant_evaluations": 37142857,
@@ -100,7 +100,7 @@ MIN_COUNTERS = {
         "read_only_queries": 2642857, "namespace_checks": 22857, "illegal_ops_checked": 10714,
         "shipped_files_loaded": 25, "shipped_verdicts_checked": 500, "op:copy": 7857, "op:pickle": 7857,
         "op:deepcopy": 3571, "op:file": 1142, "op:schema": 3571, "op:update": 18571, "op:rename": 12142,
-        "op:del": 12857, "op:restrict": 10714, "op:ns": 7142, "op:clear": 4000, "directed_cases": 19,
+        "op:del": 12857, "op:restrict": 10714, "op:ns": 7142, "op:clear": 4000, "directed_cases": 21,
     },
 }
 SHARD_TIMEOUT = {"quick": 900, "thorough": 3600}
@@ -450,6 +450,11 @@ def _through(exc, stem) -> bool:
     return any(Path(fr.filename).stem == stem for fr in traceback.extract_tb(exc.__traceback__))
 
 
+def has_object(frag) -> bool:
+    t = frag.get("type")
+    return t == "object" or (isinstance(t, list) and "object" in t) or any(has_object(f) for f in frag.get("anyOf", ()))
+
+
 def op_features(op) -> str:
     f = []
     if op.get("merge"):
@@ -632,7 +637,7 @@ class World:
                 sig = "C15:PydanticGrammar:copy:model-shared-with-original"
             elif self.fl == "json" and kind == "verdict":
                 sig = "C15:JSONGrammar:update-without-merge:" + "+".join(sorted(slot.taint))
-        self.rep.violation(sig, clause, dict(self.case, failing_step=step, failing_world=self.fl),
+        self.rep.violation(sig, clause, stored_case(self.case, failing_step=step, failing_world=self.fl),
                            observed=observed, expected=expected, msg=msg)
 
     def mechanisms(self, op):
@@ -657,12 +662,12 @@ class World:
                 out.add("mixed-array-keeps-last-item-type")
         elif o == "schema":
             frags = list(op["schema"].get("properties", {}).values())
-            if any(f.get("type") == "object" for f in frags[:-1]):
+            if any(has_object(f) for f in frags[:-1]):
                 out.add("nested-object-before-sibling")
         elif o == "update":
             m = self.slots[op["other"]].m
-            frags = [s.fragment() for n, s in m.elements.items() if n not in op["excluded"]]
-            if any(f.get("type") == "object" for f in frags[:-1]):
+            specs = [s for n, s in m.elements.items() if n not in op["excluded"]]
+            if any(has_object(f) for s in specs[:-1] for f in s.alts):
                 out.add("nested-object-before-sibling")
         return out
 
@@ -730,14 +735,14 @@ class World:
             rep.count("illegal_ops_checked")
             if real_error is None:
                 rep.observe(f"{self.cls}:{o}:no-exception-where-{expected_error}-is-documented", op)
-                slot.alive = self._well_formed(slot, step, op) and False
+                self._well_formed(slot, step, op)  # a missing membership check shows up as a dangling name
+                slot.alive = False                  # the model no longer describes this grammar
                 return
             if not self._well_formed(slot, step, op):
                 slot.alive = False
                 return
             if not self._same_state(slot):
                 rep.observe(f"{self.cls}:{o}:partial-edit-before-raising", op)
-                self._well_formed(slot, step, op)
                 slot.alive = False
                 return
         elif real_error is not None and slot.alive:
@@ -788,6 +793,9 @@ class World:
 
         def sig(which):
             if other_edited is None:
+                if which == "required" and getattr(slot, "copy_lineage", False):
+                    # names added through the copy are checked against the grammar the copy was made from
+                    return "C15:BaseGrammar:copy:required-names-bound-to-original:dangling"
                 return f"C15:{self.cls}:invariant:{which}-refer-to-missing-elements:{o}"
             return f"C15:BaseGrammar:independence:{other_edited}:{which}-changed-by-edit-of-another-grammar"
 
@@ -1031,6 +1039,15 @@ class World:
             slot.alive = False
 
 
+def stored_case(case, **extra):
+    """Witness form of a history: the operations as one JSON string (the harness truncates deeply nested values)."""
+    out = {k: v for k, v in case.items() if k != "ops"}
+    out["n_ops"] = len(case["ops"])
+    out["ops_json"] = json.dumps(case["ops"])
+    out.update(extra)
+    return out
+
+
 def SEPNAME(op):
     return op["ns"] + rm.SEP + op["name"]
 
@@ -1067,7 +1084,7 @@ def agreement(step, wj, ws, rep, case):
                 if vj != vs:
                     rep.violation(f"C15:agreement:json-vs-simple:{tag.split(':')[0]}",
                                   "JSON and simple grammars agree on the definitions both can express",
-                                  dict(case, failing_step=step), observed={"json": vj, "simple": vs, "data": enc_data(data)},
+                                  stored_case(case, failing_step=step), observed={"json": vj, "simple": vs, "data": enc_data(data)},
                                   expected={"both": ej, "definition": sj.m.describe()})
                     sj.alive = False
                     break
@@ -1303,6 +1320,10 @@ def directed_cases():
     case("copy-delete-in-copy", all3, [{"op": "names", "on": 0, "names": ["a", "b"], "merge": False},
                                        {"op": "copy", "on": 0}, {"op": "del", "on": 2, "name": "a"},
                                        {"op": "rename", "on": 2, "cur": "b", "new": "r1"}])
+    case("copy-then-clear-original", all3, [{"op": "names", "on": 0, "names": ["a", "b"], "merge": False},
+                                            {"op": "copy", "on": 0}, {"op": "clear", "on": 0},
+                                            {"op": "names", "on": 0, "names": ["x"], "merge": False},
+                                            {"op": "req", "on": 2, "name": "x"}])
     for how in ("deepcopy", "pickle"):
         case(f"{how}-independent", all3, [{"op": "names", "on": 0, "names": ["a", "b"], "merge": False},
                                           {"op": "setdef", "on": 0, "name": "b", "value": A}, {"op": how, "on": 0},
@@ -1323,6 +1344,7 @@ def directed_cases():
                                                   "merge": False},
                                                  {"op": "data", "on": 0, "data": {"z": {"map": {"k": 1}}, "a": "s", "b": "t"},
                                                   "merge": False}])
+    case("mixed-array-from-data", ["json"], [{"op": "data", "on": 0, "data": {"a": [1, "s"], "b": [1, 2.5]}, "merge": False}])
     s1 = {"type": "object", "properties": {"a": {"type": "integer"}}, "required": ["a"]}
     s2 = {"type": "object", "properties": {"c": {"type": "integer"}}, "required": ["c"]}
     case("two-schemas", ["json"], [{"op": "schema", "on": 0, "schema": s1, "merge": False},
@@ -1495,5 +1517,7 @@ def replay(case, rep):
     if case.get("kind") == "shipped":
         run_shipped(rep, only=case["file"])
         return
-    case = {k: v for k, v in case.items() if k not in ("failing_step", "failing_world")}
+    case = {k: v for k, v in case.items() if k not in ("failing_step", "failing_world", "n_ops")}
+    if "ops_json" in case:
+        case["ops"] = json.loads(case.pop("ops_json"))
     run_history(case, rep)
